@@ -2,6 +2,7 @@ import Comdex.Lemmas.LendRates
 import Comdex.Lemmas.Accrual
 import Comdex.Lemmas.AccrualErr
 import Comdex.Lemmas.VaultAccrual
+import Comdex.Lemmas.LockerAccrual
 /-!
 # C18 — Interest and savings accrual is non-negative, monotone and zero over zero time
 
@@ -42,6 +43,25 @@ Property clause → theorem
 * "triggering interest calculation more often cannot make a position owe more" at the level of `MsgVaultInterestCalc`
                                                                           → `more_frequent_triggering_not_more`
 * fee switched off and on again: the span without fee is not accrued     → `fee_toggle_restarts_clock`
+(d) the bookkeeping around (b) for LOCKERS (`Model/LockerAccrual.lean`: collector entry rate + stamp, locker balance + stamp with the
+    `BlockHeight = 0` flag, tracker, net fees; the five locker messages, the rate update `WasmUpdateCollectorLookupTable` with its
+    sweep `LockerIterateRewards`, whitelist on / off), over ALL histories of {create, deposit, withdraw, close, reward-calc, rate
+    update, time passing}
+* savings are credited only for time at a non-zero rate, at the rate in force, never twice: for every rate value r ≠ 0 the
+  seconds credited at r + the seconds still claimable at r ≤ the seconds the rate has been r
+                                                                          → `savings_only_for_time_at_positive_rate` (PARTIAL: histories
+                                                                            without deposit / withdraw while the rate is zero, whose
+                                                                            rate-update sweeps reach the locker), `savings_time_budget_from_any_state`
+  the restriction is necessary — the code credits a zero-rate window to a locker touched in it
+                                                                          → `zero_rate_window_touched_counterexample` (reproduced, D35)
+* what each accruing call books: `interest` over [clock, now] at the rate in force (old rate for a rate update)
+                                                                          → `locker_calc_books_interest`, `locker_move_books_interest`,
+                                                                            `rate_change_restarts_clock`
+* a rate change restarts the clock (r→0: flag; 0→r: collector stamp; r→r′: stamp) → `rate_change_restarts_clock`
+* zero when no time has elapsed at a non-zero rate / a zero-rate window earns nothing (idle locker, any triggers in the window,
+  switch-on and accrual in one block)                                     → `zero_rate_window_earns_nothing`
+* more frequent triggering cannot earn more, also across a rate change   → `locker_more_frequent_triggering_not_more`,
+                                                                            `accrual_subadditive_across_rate_change`
 -/
 namespace Comdex.C18
 open Comdex Comdex.LendRates
@@ -436,6 +456,190 @@ theorem fee_toggle_restarts_clock (s sa sb : St) (ca cb : Ctx) (f : Dec) (pw pw'
 
 end vault
 
+/-! # part d: the locker bookkeeping around `CalculationOfRewards` (state level, all histories) -/
+section locker
+open Comdex.Accrual Comdex.LockerAccrual
+
+/-- **Savings are credited only for time at a non-zero rate, at the rate in force, and never twice** — time-budget form, from
+ANY state satisfying the invariant: along every history of create / deposit / withdraw / close / reward-calc / rate update /
+whitelist-on calls at non-decreasing block times (rejected calls skipped, any values of `math.Pow`), for every rate value
+`r ≠ 0`: (seconds for which the locker has been credited savings at rate `r`) + (seconds it could still claim at rate `r` now)
+≤ (seconds for which the saving rate HAS BEEN `r`). Side conditions of the history (`goodHist`): the clock does not run backwards,
+heights are non-zero, rates are not negative, the whitelist is not switched off, the sweep of a rate update reaches the locker
+(calculation succeeds, net fees can pay), and no deposit / withdraw happens while the rate is zero (see the counterexample). -/
+theorem savings_time_budget_from_any_state (r : Dec) (hr : r ≠ 0) (s : St) (g : Ghost) (h : Hist)
+    (hi : Inv r s g) (hg : goodHist s g.last h = true) :
+    (grun r s g h).2.acc + pending r (grun r s g h).1 (grun r s g h).2.last ≤ (grun r s g h).2.pos ∧
+    Inv r (grun r s g h).1 (grun r s g h).2 :=
+  ⟨(inv_run r hr h s g hi hg).2.2.1, inv_run r hr h s g hi hg⟩
+
+/-- the same from the natural start: a whitelisted collector entry without a locker, at time `t0` (the locker is created inside
+the history; budgets start at zero). PARTIAL only because of the `goodHist` restriction "no deposit / withdraw at rate zero". -/
+theorem savings_only_for_time_at_positive_rate (r : Dec) (hr : r ≠ 0) (s : St) (t0 : Int) (h : Hist)
+    (hw : s.wl = true) (h0 : 0 ≤ s.coll.lsr) (hnl : s.locker = none) (hg : goodHist s t0 h = true) :
+    (grun r s ⟨t0, 0, 0⟩ h).2.acc + pending r (grun r s ⟨t0, 0, 0⟩ h).1 (grun r s ⟨t0, 0, 0⟩ h).2.last
+      ≤ (grun r s ⟨t0, 0, 0⟩ h).2.pos :=
+  (savings_time_budget_from_any_state r hr s ⟨t0, 0, 0⟩ h (inv_none r s t0 0 0 hw h0 hnl (le_refl _)) hg).1
+
+/-- **One reward-calc message at a running rate** books exactly `interest` over `[clock, now]` at the rate in force, where
+`clock` is the locker's own stamp or — flag `BlockHeight = 0` — the collector entry's; whole units move from the net fees into the
+balance; the locker is stamped `(height, now)`; the collector entry is not touched; the tracker stays in `[0, 1)`. -/
+theorem locker_calc_books_interest (ops : FloatOps) (s : St) (ctx : Ctx) (l : Locker) (s1 : St) (hv : Live s l)
+    (hne : s.coll.lsr ≠ 0) (h : stepWith ops s ctx .rewardCalc = .ok s1) :
+    0 ≤ ctx.now - clock s l ∧
+    booked s1 = booked s + interest ops l.net s.coll.lsr (ctx.now - clock s l) ∧ s1.coll = s.coll ∧ s1.wl = s.wl ∧
+    0 ≤ s1.tracker.getD 0 ∧ s1.tracker.getD 0 < Dec.one ∧
+    ∃ l1, s1.locker = some l1 ∧ l1.bh = ctx.height ∧ l1.bt = ctx.now ∧ l.ret ≤ l1.ret ∧ l1.net - l.net = l1.ret - l.ret ∧
+      s1.fees = s.fees - (l1.ret - l.ret) :=
+  calc_books ops s ctx l s1 hv hne h
+
+/-- **Deposit (`d > 0`) / withdraw (`d < 0`) at a running rate**: the accrual on the balance BEFORE the movement comes first. -/
+theorem locker_move_books_interest (ops : FloatOps) (s : St) (ctx : Ctx) (l : Locker) (s' : St) (op : Op) (d : Int) (hv : Live s l)
+    (hne : s.coll.lsr ≠ 0) (hop : (op = .deposit d) ∨ (op = .withdraw (-d))) (h : stepWith ops s ctx op = .ok s') :
+    0 ≤ ctx.now - clock s l ∧
+    booked s' = booked s + interest ops l.net s.coll.lsr (ctx.now - clock s l) ∧ s'.coll = s.coll ∧
+    ∃ l', s'.locker = some l' ∧ l'.bh = ctx.height ∧ l'.bt = ctx.now ∧ l.ret ≤ l'.ret ∧ l'.net = l.net + (l'.ret - l.ret) + d :=
+  move_books ops s ctx l s' op d hv hne hop h
+
+/-- **A rate change restarts the clock.** (i) running rate → any rate `nr ≥ 0` (`r → 0`, `r → r′`, also `r → r`): the sweep settles
+`[clock, now]` at the OLD rate, the collector entry gets the new rate and `BlockTime = now`, and the locker's next interval starts
+now — it is stamped `(height, now)`, or flagged `BlockHeight = 0` when the new rate is zero. (ii) `0 → r`: nothing is booked, the
+collector entry is stamped `now`, and a locker carrying the flag has its clock moved to `now`. -/
+theorem rate_change_restarts_clock (ops : FloatOps) (s : St) (ctx : Ctx) (nr : Dec) (l : Locker) (hv : Live s l) (hnr : 0 ≤ nr)
+    (hh : ctx.height ≠ 0) :
+    (s.coll.lsr ≠ 0 → sweepFine s ctx (powOf ops s ctx) = true →
+      ∃ s1, stepWith ops s ctx (.lsrUpdate nr) = .ok s1 ∧ 0 ≤ ctx.now - clock s l ∧
+        booked s1 = booked s + interest ops l.net s.coll.lsr (ctx.now - clock s l) ∧
+        s1.coll.lsr = nr ∧ s1.coll.bt = ctx.now ∧ s1.wl = true ∧ 0 ≤ s1.tracker.getD 0 ∧ s1.tracker.getD 0 < Dec.one ∧
+        ∃ l1, s1.locker = some l1 ∧ (nr ≠ 0 → clock s1 l1 = ctx.now) ∧ (nr = 0 → l1.bh = 0) ∧ l.ret ≤ l1.ret ∧
+          l1.net - l.net = l1.ret - l.ret ∧ s1.fees = s.fees - (l1.ret - l.ret)) ∧
+    (s.coll.lsr = 0 → nr ≠ 0 →
+      stepWith ops s ctx (.lsrUpdate nr) = .ok { s with coll := ⟨nr, ctx.height, ctx.now⟩ } ∧
+      (l.bh = 0 → clock { s with coll := ⟨nr, ctx.height, ctx.now⟩ } l = ctx.now)) :=
+  ⟨fun hne hf => lsr_running_books ops s ctx nr l hv hne hnr hh hf,
+   fun hz hn => ⟨(lsr_switch_on s ctx nr _ hv.wl hz hn).1, fun hb => (lsr_switch_on s ctx nr (powOf ops s ctx) hv.wl hz hn).2 l hv.lk hb⟩⟩
+
+/-- **A zero-rate window earns nothing; zero when no time has elapsed at a non-zero rate.** The rate is switched off at `ca`, any
+number of reward-calc messages arrive during the window (at any times), the rate is switched on again (any `nr > 0`) at `cb`, the
+locker accrues at `cc`: it ends with what it had at the switch-off plus `interest` over `[cb, cc]` at the NEW rate — nothing for
+`[ca, cb]`, however long — and with exactly what it had when the accrual is in the block of the switch-on. (Seeded change s94 —
+the `0 → r` branch no longer stamps the collector entry — breaks exactly `clock s3 l1 = cb.now`.) -/
+theorem zero_rate_window_earns_nothing (ops : FloatOps) (s0 : St) (l0 : Locker) (ca cb cc : Ctx) (nr : Dec) (w : List (Ctx × Op))
+    (hv : Live s0 l0) (hne : s0.coll.lsr ≠ 0) (hfa : sweepFine s0 ca (powOf ops s0 ca) = true) (hha : ca.height ≠ 0)
+    (hw : ∀ p ∈ w, p.2 = Op.rewardCalc) (hnr : 0 < nr) :
+    ∃ s1 l1 s3, stepWith ops s0 ca (.lsrUpdate 0) = .ok s1 ∧ s1.locker = some l1 ∧ s1.coll.lsr = 0 ∧
+      runWith ops s1 w = s1 ∧
+      stepWith ops s1 cb (.lsrUpdate nr) = .ok s3 ∧ s3.locker = some l1 ∧ clock s3 l1 = cb.now ∧ booked s3 = booked s1 ∧
+      ∀ s4, stepWith ops s3 cc .rewardCalc = .ok s4 →
+        booked s4 = booked s1 + interest ops l1.net nr (cc.now - cb.now) ∧ (cc.now = cb.now → booked s4 = booked s1) :=
+  zero_window ops s0 l0 ca cb cc nr w hv hne hfa hha hw hnr
+
+/-- **Triggering the reward calculation more often cannot earn more** (beyond the float slack): two messages at `c1`, `c2`
+against one at `c2`; the second legitimately accrues on the whole units the first one moved into the balance. -/
+theorem locker_more_frequent_triggering_not_more (ops : FloatOps) (s s1 s2 s' : St) (l l1 : Locker) (c1 c2 : Ctx)
+    (hv : Live s l) (hne : s.coll.lsr ≠ 0) (hn63 : l.net ≤ 2 ^ 63) (hh : c1.height ≠ 0) (h12 : c1.now ≤ c2.now)
+    (e1 : stepWith ops s c1 .rewardCalc = .ok s1) (k1 : s1.locker = some l1)
+    (e2 : stepWith ops s1 c2 .rewardCalc = .ok s2) (e' : stepWith ops s c2 .rewardCalc = .ok s') :
+    ((booked s2 : Int) : ℚ) ≤ ((booked s' : Int) : ℚ)
+      + subaddErr ops.E (aF l.net) (ops.pow (xF s.coll.lsr) (yF (c2.now - clock s l)))
+      + ((interest ops l1.net s.coll.lsr (c2.now - c1.now) - interest ops l.net s.coll.lsr (c2.now - c1.now) : Int) : ℚ) := by
+  obtain ⟨_, _, cc1, w1, t1, _, l1', k1', _, _, r1, n1, _⟩ := calc_books ops s c1 l s1 hv hne e1
+  have : l1' = l1 := by rw [k1] at k1'; injection k1' with e; exact e.symm
+  subst this
+  have hv1 : Live s1 l1' := ⟨by rw [w1]; exact hv.wl, by rw [cc1]; exact hv.rate, k1, by have := hv.net; omega, t1⟩
+  obtain ⟨_, b2, _⟩ := calc_books ops s1 c2 l1' s2 hv1 (by rw [cc1]; exact hne) e2
+  obtain ⟨_, b', _⟩ := calc_books ops s c2 l s' hv hne e'
+  rw [cc1] at b2
+  exact two_le_one ops s s1 l l1' c1 c2.now _ _ hv hne hn63 hh h12 e1 k1 b2 b'
+
+/-- **Sub-additivity across a rate change**: a reward-calc at `c1` followed by the rate update at `c2` books at most what the
+rate update alone books at `c2` (both settle at the OLD rate), plus the float slack and the interest on the whole units the
+message moved into the balance; after either path the collector entry carries the new rate and `BlockTime = c2`, so the new rate
+applies from `c2` on in both. -/
+theorem accrual_subadditive_across_rate_change (ops : FloatOps) (s s1 : St) (l l1 : Locker) (c1 c2 : Ctx) (nr : Dec)
+    (hv : Live s l) (hne : s.coll.lsr ≠ 0) (hn63 : l.net ≤ 2 ^ 63) (hh : c1.height ≠ 0) (hh2 : c2.height ≠ 0) (h12 : c1.now ≤ c2.now)
+    (hnr : 0 ≤ nr) (e1 : stepWith ops s c1 .rewardCalc = .ok s1) (k1 : s1.locker = some l1)
+    (f2 : sweepFine s1 c2 (powOf ops s1 c2) = true) (f' : sweepFine s c2 (powOf ops s c2) = true) :
+    ∃ s2 s', stepWith ops s1 c2 (.lsrUpdate nr) = .ok s2 ∧ stepWith ops s c2 (.lsrUpdate nr) = .ok s' ∧
+      s2.coll = s'.coll ∧ s2.coll.lsr = nr ∧ s2.coll.bt = c2.now ∧
+      ((booked s2 : Int) : ℚ) ≤ ((booked s' : Int) : ℚ)
+        + subaddErr ops.E (aF l.net) (ops.pow (xF s.coll.lsr) (yF (c2.now - clock s l)))
+        + ((interest ops l1.net s.coll.lsr (c2.now - c1.now) - interest ops l.net s.coll.lsr (c2.now - c1.now) : Int) : ℚ) := by
+  obtain ⟨_, _, cc1, w1, t1, _, l1', k1', _, _, r1, n1, _⟩ := calc_books ops s c1 l s1 hv hne e1
+  have : l1' = l1 := by rw [k1] at k1'; injection k1' with e; exact e.symm
+  subst this
+  have hv1 : Live s1 l1' := ⟨by rw [w1]; exact hv.wl, by rw [cc1]; exact hv.rate, k1, by have := hv.net; omega, t1⟩
+  obtain ⟨s2, e2, _, b2, a2, a3, _⟩ := lsr_running_books ops s1 c2 nr l1' hv1 (by rw [cc1]; exact hne) hnr hh2 f2
+  obtain ⟨s', e', _, b', a2', a3', _⟩ := lsr_running_books ops s c2 nr l hv hne hnr hh2 f'
+  rw [cc1] at b2
+  have hcoll : s2.coll = s'.coll := by
+    have h2 := step_lsr s1 c2 nr (powOf ops s1 c2) hv1.wl
+    have h' := step_lsr s c2 nr (powOf ops s c2) hv.wl
+    -- both results carry the collector entry written by the update
+    have c2' : s2.coll = ⟨nr, (if nr = 0 then 0 else c2.height), c2.now⟩ := by
+      unfold stepWith at e2; rw [h2] at e2
+      by_cases hn : nr = 0
+      · rw [if_pos hn] at e2
+        cases hit : iter s1 c2 s1.coll.lsr s1.coll.bt false (powOf ops s1 c2) with
+        | none => rw [hit, sweepRes_none] at e2; exact absurd e2 (by simp)
+        | some x => rw [hit, sweepRes_some] at e2; injection e2 with e2; rw [← e2]; simp [hn]
+      · have hp : 0 < s1.coll.lsr ∧ 0 < nr :=
+          ⟨lt_of_le_of_ne hv1.rate (by rw [cc1]; exact Ne.symm hne), lt_of_le_of_ne hnr (Ne.symm hn)⟩
+        rw [if_neg hn, if_neg (by rw [cc1]; exact hne), if_pos hp] at e2
+        cases hit : iter s1 c2 s1.coll.lsr s1.coll.bt true (powOf ops s1 c2) with
+        | none => rw [hit, sweepRes_none] at e2; exact absurd e2 (by simp)
+        | some x => rw [hit, sweepRes_some] at e2; injection e2 with e2; rw [← e2]; simp [hn]
+    have c' : s'.coll = ⟨nr, (if nr = 0 then 0 else c2.height), c2.now⟩ := by
+      unfold stepWith at e'; rw [h'] at e'
+      by_cases hn : nr = 0
+      · rw [if_pos hn] at e'
+        cases hit : iter s c2 s.coll.lsr s.coll.bt false (powOf ops s c2) with
+        | none => rw [hit, sweepRes_none] at e'; exact absurd e' (by simp)
+        | some x => rw [hit, sweepRes_some] at e'; injection e' with e'; rw [← e']; simp [hn]
+      · have hp : 0 < s.coll.lsr ∧ 0 < nr := ⟨lt_of_le_of_ne hv.rate (Ne.symm hne), lt_of_le_of_ne hnr (Ne.symm hn)⟩
+        rw [if_neg hn, if_neg hne, if_pos hp] at e'
+        cases hit : iter s c2 s.coll.lsr s.coll.bt true (powOf ops s c2) with
+        | none => rw [hit, sweepRes_none] at e'; exact absurd e' (by simp)
+        | some x => rw [hit, sweepRes_some] at e'; injection e' with e'; rw [← e']; simp [hn]
+    rw [c2', c']
+  exact ⟨s2, s', e2, e', hcoll, a2, a3, two_le_one ops s s1 l l1' c1 c2.now _ _ hv hne hn63 hh h12 e1 k1 b2 b'⟩
+
+/-- **Counterexample — the restriction "no deposit / withdraw while the rate is zero" is necessary; the code credits a zero-rate
+window** (reproduced on the unchanged tree: first `la` sequence of every harness run; values of `math.Pow` as the real run obtained
+them). Locker of 1 000 000 at 10 %; after one day the rate is set to 0 (260 settled, locker flagged `BlockHeight = 0`); a day later
+the owner deposits 1 — the deposit re-stamps the locker with the current height (x/locker/keeper/msg_server.go:191-192), the flag is
+lost; 364 days later the rate is set back to 10 % and `MsgLockerRewardCalc` is sent in the same block: `ReturnsAccumulated` jumps
+from 260 to 99 928 — the whole rest of the window at the new rate, with ZERO seconds at a non-zero rate since the deposit. In the
+time-budget reading: credited at 10 % for 31 536 000 s while the rate has been 10 % for 86 400 s. The idle locker (same history
+without the deposit) stays at 260. -/
+theorem zero_rate_window_touched_counterexample :
+    let s0 : St := ⟨true, ⟨100000000000000000, 100, 1700000000⟩, 2 ^ 200, none, none⟩
+    let pre : Hist := [(⟨1700000000, 101⟩, .create 1000000, none),
+                       (⟨1700086400, 102⟩, .lsrUpdate 0, ofBits 4607183594145394561)]
+    let post : Hist := [(⟨1731622400, 104⟩, .lsrUpdate 100000000000000000, ofBits 4607182418800017408)]
+    let touched : Hist := pre ++ [(⟨1700172800, 103⟩, .deposit 1, ofBits 4607182418800017408)] ++ post
+    let idle : Hist := pre ++ post
+    -- after the switch-off: 260 whole units settled, flag set
+    run s0 pre = ⟨true, ⟨0, 0, 1700086400⟩, 2 ^ 200 - 260, some ⟨1000260, 260, 0, 1700086400⟩, some 979099920399789880⟩ ∧
+    -- touched locker, reward-calc in the block of the switch-on (the power value is the one for 364 days at 10 %)
+    run s0 (touched ++ [(⟨1731622400, 105⟩, .rewardCalc, ofBits 4607631163137216092)])
+      = ⟨true, ⟨100000000000000000, 104, 1731622400⟩, 2 ^ 200 - 99928, some ⟨1099929, 99928, 105, 1731622400⟩,
+         some 244534163344837907⟩ ∧
+    -- idle locker, the same call (the power value is 1.0: zero seconds)
+    run s0 (idle ++ [(⟨1731622400, 105⟩, .rewardCalc, ofBits 4607182418800017408)])
+      = ⟨true, ⟨100000000000000000, 104, 1731622400⟩, 2 ^ 200 - 260, some ⟨1000260, 260, 105, 1731622400⟩,
+         some 979099920399789880⟩ ∧
+    -- the time budget at r = 10 %: violated by the touched history, kept by the idle one
+    (grun 100000000000000000 s0 ⟨1700000000, 0, 0⟩
+        (touched ++ [(⟨1731622400, 105⟩, .rewardCalc, ofBits 4607631163137216092)])).2 = ⟨1731622400, 86400, 31536000⟩ ∧
+    (grun 100000000000000000 s0 ⟨1700000000, 0, 0⟩
+        (idle ++ [(⟨1731622400, 105⟩, .rewardCalc, ofBits 4607182418800017408)])).2 = ⟨1731622400, 86400, 86400⟩ ∧
+    goodHist s0 1700000000 (idle ++ [(⟨1731622400, 105⟩, .rewardCalc, ofBits 4607182418800017408)]) = true ∧
+    goodHist s0 1700000000 touched = false := by
+  decide +kernel
+
+end locker
+
 /-! ## non-vacuity: the hypotheses of the theorems are satisfiable on ordinary values -/
 section examples
 open Comdex.Accrual
@@ -491,4 +695,46 @@ example : VaultAccrual.msgCalc
   decide +kernel
 
 end examples
+
+/-! non-vacuity for part d (locker bookkeeping) -/
+section lockerExamples
+open Comdex.Accrual Comdex.LockerAccrual
+
+/-- a power function satisfying `FloatOps` (the constant 1.0), to show that the hypotheses of the part-d theorems are satisfiable -/
+def unitOps : FloatOps :=
+  { pow := fun _ _ => (U : Int), E := 1, E_pos := by decide,
+    pow_ge_one := fun _ _ _ _ => le_refl _, pow_zero := fun _ _ => rfl,
+    pow_submult := fun _ _ _ _ _ _ => by
+      have h : (0 : Int) ≤ (U : Int) * (U : Int) := Int.mul_nonneg (Int.natCast_nonneg _) (Int.natCast_nonneg _)
+      show (U : Int) * (U : Int) * ((1 : Nat) : Int) ≤ (U : Int) * (U : Int) * (((1 : Nat) : Int) + 1)
+      exact Int.mul_le_mul_of_nonneg_left (by omega) h }
+
+/-- a live locker at a running rate: hypotheses of `locker_calc_books_interest`, `rate_change_restarts_clock`,
+`zero_rate_window_earns_nothing`, `locker_more_frequent_triggering_not_more`, `accrual_subadditive_across_rate_change` -/
+example : Live ⟨true, ⟨100000000000000000, 100, 1700000000⟩, 1000, some ⟨1000260, 260, 101, 1700000000⟩, some 5⟩
+    ⟨1000260, 260, 101, 1700000000⟩ := ⟨rfl, by decide, rfl, by decide, by decide⟩
+example : stepWith unitOps ⟨true, ⟨100000000000000000, 100, 1700000000⟩, 1000, some ⟨1000260, 260, 101, 1700000000⟩, some 5⟩
+    ⟨1700086400, 102⟩ .rewardCalc
+    = .ok ⟨true, ⟨100000000000000000, 100, 1700000000⟩, 1000, some ⟨1000260, 260, 102, 1700086400⟩, some 5⟩ := by decide +kernel
+example : sweepFine ⟨true, ⟨100000000000000000, 100, 1700000000⟩, 1000, some ⟨1000260, 260, 101, 1700000000⟩, some 5⟩
+    ⟨1700086400, 102⟩ (powOf unitOps ⟨true, ⟨100000000000000000, 100, 1700000000⟩, 1000, some ⟨1000260, 260, 101, 1700000000⟩, some 5⟩
+      ⟨1700086400, 102⟩) = true := by decide +kernel
+/-- the invariant of `savings_time_budget_from_any_state` on a state in the middle of a life: rate running since 1 700 000 000, the
+locker last settled 100 s later, 50 000 s credited so far out of 86 400 s at this rate -/
+example : Inv 100000000000000000 ⟨true, ⟨100000000000000000, 100, 1700000000⟩, 1000, some ⟨1000260, 260, 101, 1700050000⟩, some 5⟩
+    ⟨1700086400, 86400, 50000⟩ := by
+  refine ⟨rfl, by decide, by decide, ?_⟩
+  intro l hl; injection hl with hl; subst hl; exact ⟨fun _ => by decide, fun h => absurd h (by decide)⟩
+/-- a history with every kind of call that satisfies `goodHist` (values of `math.Pow`: 1.0 throughout — the side conditions do not
+depend on them beyond "the calculation succeeds") -/
+example : goodHist ⟨true, ⟨0, 0, 1700000000⟩, 1000, none, none⟩ 1700000000
+    [(⟨1700000010, 101⟩, .create 250000000, none), (⟨1700000020, 102⟩, .rewardCalc, none),
+     (⟨1703456010, 103⟩, .lsrUpdate 50000000000000000, none), (⟨1703456010, 104⟩, .rewardCalc, some (U : Int)),
+     (⟨1704060810, 105⟩, .deposit 7, some (U : Int)), (⟨1704060811, 106⟩, .withdraw 3, some (U : Int)),
+     (⟨1704320010, 107⟩, .lsrUpdate 80000000000000000, some (U : Int)), (⟨1704320010, 108⟩, .wlOn, none),
+     (⟨1704924810, 109⟩, .lsrUpdate 0, some (U : Int)), (⟨1705924810, 110⟩, .lsrUpdate 0, some (U : Int)),
+     (⟨1706924810, 111⟩, .close, none), (⟨1706924810, 112⟩, .create 5, none)] = true := by decide +kernel
+
+end lockerExamples
+
 end Comdex.C18
